@@ -24,10 +24,11 @@ TEXT.update({
  },
  "C11": {
   "engine": "M",
-  "technique": "symbolic execution of the rustc MIR of PrimitiveValue::to_multi_int (+closures) with z3 bit-vectors; native replay of every model",
+  "technique": "symbolic execution of the rustc MIR of PrimitiveValue::to_multi_int (+closures), to_float32 and to_float64 with z3 bit-vectors and IEEE-754 terms; native replay of every model",
   "level": "For every (source variant, target integer type) pair and 0, 1, 2 full-width symbolic items the solver shows on every feasible path: Ok(list) has one exact "
-           "value per item in order, Err only if some item is not representable, an empty value gives an empty list. Kani ran out of memory (23 GB) on the same function.",
-  "note": "bounded to 2 items; textual sources, float conversions, extend/truncate not encoded; NumCast modelled by its documented contract; contract table in evidence",
+           "value per item in order, Err only if some item is not representable, an empty value gives an empty list. Kani ran out of memory (23 GB) on the same function. "
+           "to_float32 / to_float64 of an integer value: Ok(first item converted with round-to-nearest-even, bit for bit), Err for an empty value.",
+  "note": "bounded to 2 items; textual and float sources, multi-valued float conversions, extend/truncate not encoded; NumCast modelled by its documented contract; contract table in evidence",
  },
  "C15": {
   "engine": "M",
